@@ -369,7 +369,7 @@ impl Check for C01Check {
             Phase::random("random-asts", tier.pick(60_000, 1_500_000), 160).with_min_tape(24).with_chunk(512),
             Phase::exhaustive("control-flow-skeletons", astgen::CONTROL.count_up_to(tier.pick(8, 9))).with_chunk(2048),
             Phase::exhaustive("operators-on-value-pairs", valuepool::binary_program_count() + valuepool::unary_program_count()).with_chunk(1024),
-            Phase::exhaustive("repetition", repetition_programs().len() as u64).with_chunk(16),
+            Phase::exhaustive("repetition", repetition_corpus().len() as u64).with_chunk(16),
         ]
     }
     fn run(&self, tier: Tier, phase: usize, input: &Input, ctx: &mut CaseCtx) {
@@ -407,9 +407,12 @@ impl Check for C01Check {
                 self.judge_text(&src, &[0, 1], ctx);
             }
             (4, Input::Index(i)) => {
-                let progs = repetition_programs();
+                let progs = repetition_corpus();
                 ctx.class("repetition");
                 self.judge_text(&progs[*i as usize], &[0, 2], ctx);
+                if *i as usize >= repetition_programs().len() {
+                    ctx.class(if ctx.classes.contains(&"judged") { "size-sweep-judged" } else { "size-sweep-not-judged" });
+                }
             }
             (_, Input::Text(s)) => {
                 // a program given as text (hand-written regression, or the coverage-guided stage): read by the reference
